@@ -404,6 +404,16 @@ def check_integral_rms(ctx, rule="R3-band-rms-is-trapezoid-of-asd-squared"):
     except Unknown as ex:
         ctx.unknown(rule, key, str(ex), where); return
     if len(cts) != 1:
+        if not cts:
+            # no cumulative-trapezoid primitive: decide the quadrature on a concrete 5-point grid (samples symbolic) by partial evaluation
+            v = _integral_instance(ctx, repo, key, fn)
+            if v is not None:
+                st_, detail = v
+                ctx.ob(rule, key + "[quadrature on a 5-point grid]", st_, detail, where)
+                if st_ != HOLDS: return
+                ctx.notes.append("integral_rms: quadrature decided on a concrete 5-point grid (band cropping is not decided for this implementation)")
+                ctx.unknown(rule, key + "[band thresholds]", "the band crop of an implementation without cumulative_trapezoid is not analysed", where)
+                return
         ctx.ob(rule, key, UNKNOWN if not cts else VIOLATED, f"{len(cts)} cumulative trapezoid integrations found", where); return
     m = cts[0]
     y, x = m.info["y"], m.info["x"]
@@ -457,6 +467,51 @@ def check_integral_rms(ctx, rule="R3-band-rms-is-trapezoid-of-asd-squared"):
     src = ast.unparse(fn)
     sq = "np.sqrt(" in src.replace(" ", "") and "[-1]" in src
     (ctx.holds if sq else ctx.violated)(rule, key + "[root]", "rms = sqrt(integral)" if sq else "the square root of the last cumulative value is not returned", where)
+
+
+def _integral_instance(ctx, repo, key, fn):
+    """(status, detail) of  integral_rms(f, asd)**2 == sum (asd[i]^2 + asd[i+1]^2)/2 (f[i+1]-f[i])  on a 5-point grid with the full band, or None."""
+    from .libcalls import h_dot1
+    from .dispatch import numeric_chooser
+    n = 5
+    I = Interp(repo)
+    ARRAY_KIND.update({"freq": "pos", "asd": "pos"})
+
+    def lib(I_, name, args, kw, st, nd):
+        if name in ("numpy.min", "numpy.max", "numpy.amin", "numpy.amax") and args and isinstance(args[0], ArrParam):
+            which = "min" if name.endswith("min") else "max"
+            KIND[f"{args[0].name}.{which}"] = "real"
+            return X.var(f"{args[0].name}.{which}")
+        if name in ("numpy.dot", "numpy.vdot", "numpy.inner"): return h_dot1(I_, args, kw, st, nd)
+        if name.startswith("logging.") or name.startswith("logger."): return None
+        return NotImplemented
+    I.hooks["lib"] = lib
+
+    def call(I_, f, args, kwargs, st, node):
+        if f.key == f"{DSP}::crop_data": return (args[0], args[1])          # the full band keeps every grid point
+        return NotImplemented
+    I.hooks["call"] = call
+    I.hooks["decide"] = numeric_chooser({"freq.min": 1.0, "freq.max": 9.0, "inf": 1e300})
+    fa = ArrParam("freq", shape=(X.const(n),)); aa = ArrParam("asd", shape=(X.const(n),))
+    st0 = St()
+    try:
+        r = I.call_key(key, [fa, aa], {}, st0)
+    except Unknown as ex:
+        return None
+    leaves = [l for _, l in pv_leaves(r) if not (to_x(l) is not None and to_x(l).iszero())]
+    roots_ = [to_x(ev[1]) for ev in st0.events if ev[0] == "sqrt" and not is_opaque(ev[1]) and not isinstance(ev[1], (PV, Arr, ArrParam, LocalArr)) and to_x(ev[1]) is not None]
+    got2 = None
+    if len(leaves) == 1 and to_x(leaves[0]) is not None: got2 = to_x(leaves[0]) * to_x(leaves[0])
+    elif roots_: got2 = roots_[-1]                     # the value whose square root is returned (the root itself has no polynomial normal form)
+    if got2 is None: return None
+    f_ = lambda i: mk_idx("freq", [X.const(i)], "pos"); a_ = lambda i: mk_idx("asd", [X.const(i)], "pos")
+    want = X.const(0)
+    for i in range(n - 1): want = want + (a_(i) * a_(i) + a_(i + 1) * a_(i + 1)) * X.const(Fr(1, 2)) * (f_(i + 1) - f_(i))
+    try: st_, why = compare(got2, want)
+    except Unknown as ex: return None
+    if st_ == HOLDS: return HOLDS, "rms^2 is the trapezoidal integral of asd^2 over the grid"
+    return st_, (f"rms^2 on the grid f0..f4 is not the trapezoidal integral of asd^2 (end points or interior points carry the wrong weight: power is not additive "
+                 f"over adjacent bands) {why}")
 
 
 def check_get_rms(ctx, rule="R4-result-rms-delegates"):
